@@ -116,7 +116,10 @@ def draw(rng, *, max_states=4, max_controls=3, max_cal=2, max_sensors=3, max_rea
             if rn in rd:
                 continue
             all_reading_names.append(rn)
-            if linear:
+            if rng.random() < 0.12:
+                # one state through a constant scale factor (unit conversion): H has a single entry that is not 1
+                rd[rn] = Float(rng.choice([0.5, 0.1, 2.0, -0.25])) * rng.choice(S)
+            elif linear:
                 rd[rn] = sum((Float(rng.choice(CONSTS)) * t for t in rng.sample(S + C, min(len(S + C), rng.randint(1, 2)))), Float(0)) + rng.choice(S)
             else:
                 rd[rn] = _term(rng, S + C, 2) + rng.choice(S)
@@ -201,7 +204,7 @@ def curated(name):
         return _mk(name, ["pos", "vel"], ["brake", "push"], [],
                    {"pos": pos + dt * vel, "vel": vel * (1 - dt * brake) + dt * push},
                    {"brake": 0.05, "push": 0.3},
-                   {"odo": ({"speed": vel}, {"speed": 0.2}), "gate": ({"where": pos + 0.5 * vel}, {"where": 0.4})},
+                   {"odo": ({"speed": 0.5 * vel}, {"speed": 0.2}), "gate": ({"where": pos + 0.5 * vel}, {"where": 0.4})},
                    {}, tags=["curated", "control_dependent_jacobian"])
     raise KeyError(name)
 
